@@ -266,6 +266,15 @@ Definition send_htlc (c : chan) (amt tag : Z) : rres (chan * bool) :=
     let h := mkOut (mkP (c_next_holder_id c) amt tag) OS_LocalAnnounced in
     ROk (set_ids (set_htlcs c (c_in c) (c_out c ++ [h])) (c_next_holder_id c + 1) (c_next_cp_id c), true).
 
+(** [send_htlc] with its limit test: [limit] / [minimum] are [next_outbound_htlc_limit_msat] /
+    [next_outbound_htlc_minimum_msat] of [get_available_balances] (generated; [reported_limits] in
+    Model/ChanSys.v computes them from this state). Same guard order as the Rust. *)
+Definition send_htlc_checked (limit minimum : Z) (c : chan) (amt tag : Z) : rres (chan * bool) :=
+  if amt =? 0 then RErr "ZeroAmount"
+  else if amt <? minimum then RErr "HTLCMinimum"
+  else if limit <? amt then RErr "HTLCMaximum"
+  else send_htlc c amt tag.
+
 (** [send_htlc_and_commit] *)
 Definition send_htlc_and_commit (c : chan) (amt tag : Z) : rres (chan * list msg) :=
   match send_htlc c amt tag with
